@@ -411,7 +411,7 @@ Proof.
                         else (st1, None)) in
               ro st1 (fst r) /\ (snd r = None -> childless (st_store st1) p)).
   { destruct (is_dir (f_mode (mk_file p rc))) eqn:D.
-    - unfold f_names. cbn [h_names mk_file]. unfold snames.
+    - unfold f_names. cbn [h_names h_fresh mk_file]. unfold snames.
       destruct (tick_nf st1 (proj1 G1)) as [Rt Bt]. destruct (tick st1) as [stt bad]. cbn [fst snd] in *. subst bad.
       cbn [h_path h_mode mk_file]. change (r_mode rc) with (f_mode (mk_file p rc)). rewrite D.
       destruct (child_names p (st_store stt)) as [|x l] eqn:CN; cbn [fst snd]; (split; [exact Rt|]); [|discriminate].
@@ -662,6 +662,7 @@ Qed.
 Lemma f_names_ro st h : nf st -> ro st (fst (fst (f_names st h))).
 Proof.
   intros H. unfold f_names. destruct (h_names h); [apply ro_refl; exact H|].
+  destruct (h_fresh h); [apply ro_refl; exact H|].
   unfold snames. destruct (tick_nf st H) as [R B]. destruct (tick st) as [st1 bad]. cbn [fst snd] in *. subst bad.
   destruct (is_dir (h_mode h)); exact R.
 Qed.
@@ -1109,7 +1110,7 @@ Proof.
   { apply is_regular_not_dir. rewrite <- (proj2 Kfo). exact Dfo. }
   rewrite (Same Rg) in *. clear Same Kfo.
   (* the listing of the old directory *)
-  unfold f_names. cbn [h_names mk_file]. unfold snames.
+  unfold f_names. cbn [h_names h_fresh mk_file]. unfold snames.
   destruct (tick_nf st3 (proj1 G3)) as [R4 B4]. destruct (tick st3) as [st4 bad]. cbn [fst snd] in *. subst bad.
   cbn [h_path h_mode mk_file]. change (r_mode rc) with (f_mode (mk_file o rc)). rewrite Dfo.
   pose proof (good_ro _ _ G3 R4) as G4.
